@@ -172,6 +172,11 @@ func (pp c08) Run(c *core.Ctx, idx int) {
 	o.Choices = idx%3 == 0
 	o.NestedChoice = idx%6 == 0
 	o.NonConfig = idx%2 == 0
+	if idx%5 == 3 {
+		// nodes contributed by an augmenting module, incl. cases and case members added to choices of the main module
+		o.Aug = true
+		o.Choices = true
+	}
 	o.KeyTypes = []string{"string", "int32", "int64", "uint8", "uint32", "enumeration", "boolean", "int8", "uint16", "uint64", "int16", "identityref", "decimal64"}
 	s := dp.GenSchema(r, o)
 	fixture := idx == 1 || idx == 2
@@ -315,7 +320,8 @@ func (pp c08) Run(c *core.Ctx, idx int) {
 			htag = "hostile-keys"
 		}
 		for mode := 0; mode < 4; mode++ {
-			if mode == 1 && r.Intn(2) == 0 {
+			if mode == 1 && (r.Intn(2) == 0 || s.AugName != "") {
+				// which module name qualifies a node that arrives through a grouping of another module is C15's business
 				continue
 			}
 			path := spell(s, p, mode)
